@@ -528,9 +528,14 @@ func (v *Visitor) Visit(s *df.AnalyzerState, source df.NodeWithTrace) {
 				}
 				if graphNode.Index() < len(bvs) {
 					bv := bvs[graphNode.Index()]
+					// the closure may have been entered without a recorded call (e.g. it is run by a defer)
+					var callerTrace *df.CallStack
+					if cur.Trace != nil {
+						callerTrace = cur.Trace.Parent
+					}
 					nextNodeWithTrace := df.NodeWithTrace{
 						Node:         bv,
-						Trace:        cur.Trace.Parent,
+						Trace:        callerTrace,
 						ClosureTrace: cur.ClosureTrace.Parent,
 					}
 					que = v.addNext(s, que, cur, nil, nextNodeWithTrace, cur.Status, df.EdgeInfo{})
